@@ -14,7 +14,8 @@ from vlib import unitsref as U
 
 PROPERTY = 'C10'
 RULE = ('(1) exhaustive: every documented unit name x {no prefix, 20 SI prefixes} (777 strings), value and 7 exponents '
-        'against the Fraction table; (2) Hypothesis expression trees in the shape of the documented grammar (numbers, '
+        'against the Fraction table, sharded and again as one long single-process history (forwards, backwards, all 16317 '
+        'doubly-prefixed names, forwards again); (2) Hypothesis expression trees in the shape of the documented grammar (numbers, '
         'names, prefixed names, * / juxtaposition, parentheses, ^ with integer/negative/decimal/parenthesised exponents, '
         'generated spacing), depth <= 3; (3) conversions in_units/with_units/to_SI_from/from_SI_to/has_units over pairs '
         'of unit expressions, compatible and incompatible; (4) constructed malformed strings and token mutations of valid '
@@ -118,6 +119,44 @@ def check_name(ctx, case):
         except Exception:
             return
         compare(ctx, text, res, model, case, 'prefix:%s' % case['prefix'])
+
+
+def enum_names_history(tier):
+    """One process, one long history: the whole table forwards, then backwards, then every doubly-prefixed
+    name (which must be rejected unless the documented lookup order resolves it).  Catches lookups whose
+    answer depends on what was evaluated before."""
+    fwd = list(enum_names(tier))
+    for c in fwd:
+        yield c
+    for c in reversed(fwd):
+        yield c
+    for n in NAMES:
+        for p1 in PREF:
+            for p2 in PREF:
+                yield dict(kind='stacked', text=p1 + p2 + n)
+    for c in fwd:
+        yield c
+
+
+def check_stacked(ctx, case):
+    m = _pg()
+    t = case['text']
+    known = U.is_known(t)
+    ctx.case(nontrivial=True, key=['stacked', t], sample=dict(text=t, resolves=known))
+    ctx.event('stacked:resolves' if known else 'stacked:unknown')
+    try:
+        res = m['eval_qty'](t)
+    except m['UnitsParseError']:
+        if known:
+            ctx.fail('stacked:rejects-known', '%r rejected although the lookup order resolves it' % t)
+        return
+    except Exception as e:
+        ctx.fail('stacked:raises-%s' % type(e).__name__, '%r raises %s: %s' % (t, type(e).__name__, e))
+        return
+    if not known:
+        ctx.fail('stacked:accepted', '%r (two prefixes) accepted as %r' % (t, res))
+    else:
+        compare(ctx, t, res, U.lookup(t), case, 'stacked')
 
 
 # -- (2) expression trees ---------------------------------------------------------
@@ -487,7 +526,7 @@ def _in_domain(tree):
 
 
 UNKNOWN = ['foo', 'Joule', 'kcals', 'xyz', 'Kelvin', 'mols', 'q', 'kk', 'dak', 'e', 'E', 'T', 'k', 'da', 'Mm2'[:2] + 'x',
-           'sec', 'hr', 'gm', 'Hz', 'l', 'ohm', 'Cal']
+           'sec', 'hr', 'gm', 'Hz', 'l', 'ohm', 'Cal', 'nan', 'inf', 'NaN', 'Infinity', 'naN', 'INF']
 
 
 @st.composite
@@ -604,12 +643,13 @@ def check_mutated(ctx, case):
 
 
 def check_any(ctx, case):
-    return {'name': check_name, 'tree': check_tree, 'conv': check_conv, 'malformed': check_malformed,
+    return {'name': check_name, 'stacked': check_stacked, 'tree': check_tree, 'conv': check_conv, 'malformed': check_malformed,
             'mutated': check_mutated}[case['kind']](ctx, case)
 
 
 FAMILIES = [
     Family('names', check_any, enumerate=enum_names),
+    Family('names-history', check_any, enumerate=enum_names_history, sharded=False),
     Family('trees', check_any, strategy=tree_strategy, n=(8000, 300000)),
     Family('conversions', check_any, strategy=lambda tier: conversion_case(), n=(4000, 100000)),
     Family('malformed', check_any, strategy=lambda tier: malformed_case(), n=(3000, 60000)),
